@@ -1394,6 +1394,519 @@ static void run_block_scenario(vrt_rng *r, int idx, int max_es)
     vrt_count(c_cases, 1);
 }
 
+/* ======================================================================= */
+/* mode=susp (C11 part A): a suspended ULT runs again only after a resume, and
+ * exactly once per resume, even if the resume comes the moment BLOCKED is
+ * observable */
+#define SMAXS 24
+typedef struct {
+    int id;
+    ABT_thread th;
+    int rounds;
+    int credits;      /* atomic: resumes issued and not yet consumed */
+    int running;      /* atomic: 1 while the ULT's own code runs */
+    int resumes, returns; /* atomic */
+    int done;         /* atomic */
+    int started;      /* atomic */
+    int resumer;      /* which resumer is responsible */
+} sus_t;
+static sus_t g_sus[SMAXS];
+static int g_nsus, g_nres;
+static int c_suspends, c_susp_scen, c_resumed_by_ext, c_resumed_by_ult;
+
+static void sus_fn(void *arg)
+{
+    sus_t *u = (sus_t *)arg;
+    VRT_ABT(ABT_self_get_thread(&u->th));
+    if (__atomic_add_fetch(&u->running, 1, __ATOMIC_SEQ_CST) != 1)
+        vrt_violation("susp:runs-on-two-streams", "ULT %d entered while it is already running", u->id);
+    __atomic_store_n(&u->started, 1, __ATOMIC_SEQ_CST);
+    for (int n = 0; n < u->rounds && vrt_num_violations() == 0; n++) {
+        __atomic_sub_fetch(&u->running, 1, __ATOMIC_SEQ_CST);
+        VRT_ABT(ABT_self_suspend());
+        int r = __atomic_add_fetch(&u->running, 1, __ATOMIC_SEQ_CST);
+        if (r != 1)
+            vrt_violation("susp:runs-on-two-streams", "ULT %d resumed while another instance of it is running (%d)",
+                          u->id, r);
+        int c = __atomic_fetch_sub(&u->credits, 1, __ATOMIC_SEQ_CST);
+        if (c <= 0)
+            vrt_violation("susp:ran-without-resume",
+                          "ULT %d returned from ABT_self_suspend (round %d) although no resume was issued for it", u->id, n);
+        __atomic_fetch_add(&u->returns, 1, __ATOMIC_SEQ_CST);
+        vrt_count(c_suspends, 1);
+        if ((n & 7) == 0)
+            ABT_thread_yield();
+    }
+    __atomic_sub_fetch(&u->running, 1, __ATOMIC_SEQ_CST);
+    __atomic_store_n(&u->done, 1, __ATOMIC_SEQ_CST);
+}
+
+typedef struct {
+    int idx;
+    int is_ext;
+} resarg_t;
+static void resumer2_body(resarg_t *ra)
+{
+    for (;;) {
+        int remaining = 0;
+        for (int i = 0; i < g_nsus; i++) {
+            sus_t *u = &g_sus[i];
+            if (u->resumer != ra->idx || __atomic_load_n(&u->done, __ATOMIC_SEQ_CST))
+                continue;
+            remaining++;
+            if (!__atomic_load_n(&u->started, __ATOMIC_SEQ_CST))
+                continue;
+            ABT_thread_state st = ABT_THREAD_STATE_READY;
+            ABT_thread_get_state(u->th, &st);
+            if (st != ABT_THREAD_STATE_BLOCKED)
+                continue;
+            /* BLOCKED is observable: resume at once */
+            __atomic_fetch_add(&u->credits, 1, __ATOMIC_SEQ_CST);
+            __atomic_fetch_add(&u->resumes, 1, __ATOMIC_SEQ_CST);
+            int rc = ABT_thread_resume(u->th);
+            if (rc != ABT_SUCCESS)
+                vrt_violation("susp:resume-rc", "ABT_thread_resume of a BLOCKED ULT returned %d", rc);
+            vrt_count(ra->is_ext ? c_resumed_by_ext : c_resumed_by_ult, 1);
+        }
+        if (!remaining || vrt_num_violations())
+            break;
+        if (!ra->is_ext)
+            ABT_thread_yield();
+    }
+}
+static void resumer2_fn(void *arg)
+{
+    resumer2_body((resarg_t *)arg);
+}
+static void *resumer2_pt(void *arg)
+{
+    resumer2_body((resarg_t *)arg);
+    return NULL;
+}
+
+static void run_susp(vrt_rng *r, int idx, int max_es, int rounds)
+{
+    int nes, shared, pk, sp;
+    world_random_config(r, max_es, &nes, &shared, &pk, &sp);
+    if (nes < 2)
+        nes = 2;
+    VRT_ABT(ABT_init(0, NULL));
+    world_t w;
+    world_create(&w, nes, shared, pk, sp);
+    g_nsus = 1 + (int)vrt_range(r, SMAXS - 1);
+    g_nres = 1 + (int)vrt_range(r, 3);
+    memset(g_sus, 0, sizeof(g_sus));
+    ABT_thread sth[SMAXS], rth[4];
+    pthread_t rpt[4];
+    static resarg_t ra[4];
+    for (int i = 0; i < g_nsus; i++) {
+        g_sus[i].id = i;
+        g_sus[i].rounds = 1 + (int)vrt_range(r, (uint64_t)rounds);
+        g_sus[i].resumer = (int)vrt_range(r, (uint64_t)g_nres);
+    }
+    for (int i = 0; i < g_nres; i++) {
+        ra[i].idx = i;
+        ra[i].is_ext = (int)vrt_range(r, 2);
+    }
+    for (int i = 0; i < g_nsus; i++)
+        VRT_ABT(ABT_thread_create(w.pools[(i % (nes - 1)) + 1], sus_fn, &g_sus[i], ABT_THREAD_ATTR_NULL, &sth[i]));
+    for (int i = 0; i < g_nres; i++) {
+        if (ra[i].is_ext)
+            pthread_create(&rpt[i], NULL, resumer2_pt, &ra[i]);
+        else
+            VRT_ABT(ABT_thread_create(w.pools[0], resumer2_fn, &ra[i], ABT_THREAD_ATTR_NULL, &rth[i]));
+    }
+    for (int i = 0; i < g_nsus; i++)
+        VRT_ABT(ABT_thread_free(&sth[i]));
+    for (int i = 0; i < g_nres; i++) {
+        if (ra[i].is_ext)
+            pthread_join(rpt[i], NULL);
+        else
+            VRT_ABT(ABT_thread_free(&rth[i]));
+    }
+    for (int i = 0; i < g_nsus && vrt_num_violations() == 0; i++) {
+        sus_t *u = &g_sus[i];
+        VRT_CHECK(u->resumes == u->returns && u->returns == u->rounds && u->credits == 0, "susp:resume-count",
+                  "ULT %d: %d rounds, %d resumes issued, %d returns from suspend, %d credits left", i, u->rounds,
+                  u->resumes, u->returns, u->credits);
+    }
+    char wd[128];
+    world_describe(&w, wd, sizeof(wd));
+    if (idx < 2)
+        vrt_sample("susp scenario %d: %s, %d suspenders (<=%d rounds each) on secondary streams, %d resumers polling for "
+                   "BLOCKED (external or ULT on the primary)", idx, wd, g_nsus, rounds, g_nres);
+    vrt_signature_add("%s,s%d,r%d", wd, g_nsus > 8 ? 9 : g_nsus, g_nres);
+    world_destroy(&w);
+    VRT_ABT(ABT_finalize());
+    vrt_count(c_susp_scen, 1);
+    vrt_count(c_cases, 1);
+}
+
+/* ======================================================================= */
+/* mode=direct (C11 part B): chains of directed switches on one stream */
+enum { DS_FRESH = 0, DS_INPOOL, DS_POPPED, DS_BLOCKED, DS_RUNNING, DS_TERMINATED };
+enum { DO_YIELD_TO = 0, DO_THREAD_YIELD_TO, DO_CREATE_TO, DO_REVIVE_TO, DO_SUSPEND_TO, DO_RESUME_YIELD_TO,
+       DO_RESUME_SUSPEND_TO, DO_EXIT_TO, DO_RESUME_EXIT_TO, DO_YIELD, DO_SUSPEND, DO_RESUME, DO_NOPS };
+static const char *do_name[] = { "yield_to", "thread_yield_to", "create_to", "revive_to", "suspend_to", "resume_yield_to",
+                                 "resume_suspend_to", "exit_to", "resume_exit_to", "yield", "self_suspend", "resume" };
+#define DMAXW 48
+typedef struct {
+    int id;
+    ABT_thread th;
+    int st;
+    int pool;  /* 0 or 1: which of the stream's two pools */
+    int used;
+    int lives; /* how many times it was (re)started */
+} dw_t;
+static struct {
+    dw_t w[DMAXW];
+    int nw;
+    ABT_pool pools[2];
+    int npools;
+    ABT_pool staging;
+    long budget; /* remaining directed ops */
+    int active;  /* workers not terminated (atomic not needed: single stream) */
+    /* expectation posted by the last directed switch */
+    int exp_valid, exp_next, exp_caller, exp_state, exp_op;
+    vrt_rng rng;
+    int finished; /* atomic: all workers terminated */
+} g_d;
+static int c_dops[DO_NOPS], c_dchains, c_dexpect, c_dscen, c_dfresh_target, c_dstarted_target;
+
+static void dworker(void *arg);
+
+static void d_check_expect(dw_t *me)
+{
+    if (!g_d.exp_valid)
+        return;
+    g_d.exp_valid = 0;
+    vrt_count(c_dexpect, 1);
+    if (g_d.exp_next != me->id) {
+        vrt_violation("direct:wrong-unit-ran-next",
+                      "after %s by worker %d the named ULT %d had to run next on the stream, but worker %d runs",
+                      do_name[g_d.exp_op], g_d.exp_caller, g_d.exp_next, me->id);
+        return;
+    }
+    dw_t *c = &g_d.w[g_d.exp_caller];
+    ABT_thread_state st;
+    if (ABT_thread_get_state(c->th, &st) == ABT_SUCCESS && (int)st != g_d.exp_state)
+        vrt_violation("direct:caller-state",
+                      "after %s by worker %d, the target sees the caller in state %d, expected %d", do_name[g_d.exp_op],
+                      g_d.exp_caller, (int)st, g_d.exp_state);
+}
+static void d_post(dw_t *me, int next, int op, int caller_state)
+{
+    g_d.exp_valid = 1;
+    g_d.exp_next = next;
+    g_d.exp_caller = me->id;
+    g_d.exp_state = caller_state;
+    g_d.exp_op = op;
+    vrt_count(c_dops[op], 1);
+    vrt_count(c_dchains, 1);
+}
+static int d_pick(int st, int not_id)
+{
+    int cand[DMAXW], n = 0;
+    for (int i = 0; i < g_d.nw; i++)
+        if (g_d.w[i].used && g_d.w[i].st == st && i != not_id)
+            cand[n++] = i;
+    return n ? cand[vrt_range(&g_d.rng, (uint64_t)n)] : -1;
+}
+/* pop a READY ULT out of one of the stream's pools */
+static int d_pop_ready(dw_t *me)
+{
+    for (int k = 0; k < g_d.npools; k++) {
+        int p = (int)((vrt_range(&g_d.rng, 2) + (uint64_t)k) % (uint64_t)g_d.npools);
+        ABT_thread th = ABT_THREAD_NULL;
+        ABT_pool_pop_thread(g_d.pools[p], &th);
+        if (th == ABT_THREAD_NULL)
+            continue;
+        for (int i = 0; i < g_d.nw; i++)
+            if (g_d.w[i].used && g_d.w[i].th == th) {
+                if (g_d.w[i].st != DS_INPOOL && g_d.w[i].st != DS_FRESH)
+                    vrt_violation("direct:popped-unit-state", "popped worker %d which the model has in state %d", i,
+                                  g_d.w[i].st);
+                return i;
+            }
+        vrt_violation("direct:popped-unknown", "popped a unit that is not a worker");
+        return -1;
+    }
+    (void)me;
+    return -1;
+}
+static int d_new_slot(void)
+{
+    for (int i = 0; i < DMAXW; i++)
+        if (!g_d.w[i].used) {
+            if (i >= g_d.nw)
+                g_d.nw = i + 1;
+            return i;
+        }
+    return -1;
+}
+
+static void d_resume_all_blocked(void)
+{
+    for (int i = 0; i < g_d.nw; i++)
+        if (g_d.w[i].used && g_d.w[i].st == DS_BLOCKED) {
+            g_d.w[i].st = DS_INPOOL;
+            VRT_ABT(ABT_thread_resume(g_d.w[i].th));
+            vrt_count(c_dops[DO_RESUME], 1);
+        }
+}
+
+static void dworker(void *arg)
+{
+    dw_t *me = (dw_t *)arg;
+    me->st = DS_RUNNING;
+    me->lives++;
+    d_check_expect(me);
+    while (vrt_num_violations() == 0) {
+        if (g_d.budget <= 0) {
+            /* wind down: nobody may stay blocked */
+            d_resume_all_blocked();
+            break;
+        }
+        g_d.budget--;
+        int op = (int)vrt_range(&g_d.rng, DO_NOPS);
+        int t;
+        switch (op) {
+            case DO_YIELD_TO:
+            case DO_SUSPEND_TO:
+            case DO_EXIT_TO: {
+                /* needs a READY ULT that is not in a pool: pop one, or make a
+                 * fresh one through the staging pool */
+                t = d_pop_ready(me);
+                if (t < 0 && vrt_range(&g_d.rng, 2) && g_d.active < DMAXW - 2) {
+                    t = d_new_slot();
+                    if (t >= 0) {
+                        dw_t *n = &g_d.w[t];
+                        memset(n, 0, sizeof(*n));
+                        n->id = t;
+                        n->used = 1;
+                        n->pool = (int)vrt_range(&g_d.rng, (uint64_t)g_d.npools);
+                        n->st = DS_FRESH;
+                        g_d.active++;
+                        ABT_thread popped;
+                        VRT_ABT(ABT_thread_create(g_d.staging, dworker, n, ABT_THREAD_ATTR_NULL, &n->th));
+                        VRT_ABT(ABT_pool_pop_thread(g_d.staging, &popped));
+                        /* from now on it belongs to one of the stream's pools */
+                        VRT_ABT(ABT_thread_set_associated_pool(n->th, g_d.pools[n->pool]));
+                    }
+                }
+                if (t < 0)
+                    break;
+                vrt_count(g_d.w[t].st == DS_FRESH ? c_dfresh_target : c_dstarted_target, 1);
+                g_d.w[t].st = DS_POPPED;
+                if (op == DO_YIELD_TO) {
+                    d_post(me, t, op, ABT_THREAD_STATE_READY);
+                    me->st = DS_INPOOL;
+                    VRT_ABT(ABT_self_yield_to(g_d.w[t].th));
+                } else if (op == DO_SUSPEND_TO) {
+                    d_post(me, t, op, ABT_THREAD_STATE_BLOCKED);
+                    me->st = DS_BLOCKED;
+                    VRT_ABT(ABT_self_suspend_to(g_d.w[t].th));
+                } else {
+                    /* leave only when nobody would be left blocked for ever */
+                    if (g_d.active <= 2 || d_pick(DS_BLOCKED, me->id) >= 0) {
+                        /* not now: use it as a yield_to instead */
+                        d_post(me, t, DO_YIELD_TO, ABT_THREAD_STATE_READY);
+                        me->st = DS_INPOOL;
+                        VRT_ABT(ABT_self_yield_to(g_d.w[t].th));
+                    } else {
+                        d_post(me, t, op, ABT_THREAD_STATE_TERMINATED);
+                        me->st = DS_TERMINATED;
+                        g_d.active--;
+                        ABT_self_exit_to(g_d.w[t].th);
+                        vrt_violation("direct:ran-after-exit-to", "worker %d continued after exit_to", me->id);
+                    }
+                }
+                me->st = DS_RUNNING;
+                d_check_expect(me);
+                break;
+            }
+            case DO_THREAD_YIELD_TO:
+                t = d_pick(DS_INPOOL, me->id);
+                if (t < 0)
+                    break;
+                vrt_count(c_dstarted_target, 1);
+                d_post(me, t, op, ABT_THREAD_STATE_READY);
+                g_d.w[t].st = DS_POPPED;
+                me->st = DS_INPOOL;
+                VRT_ABT(ABT_thread_yield_to(g_d.w[t].th));
+                me->st = DS_RUNNING;
+                d_check_expect(me);
+                break;
+            case DO_CREATE_TO:
+                if (g_d.active >= DMAXW - 2)
+                    break;
+                t = d_new_slot();
+                if (t < 0)
+                    break;
+                {
+                    dw_t *n = &g_d.w[t];
+                    memset(n, 0, sizeof(*n));
+                    n->id = t;
+                    n->used = 1;
+                    n->pool = (int)vrt_range(&g_d.rng, (uint64_t)g_d.npools);
+                    n->st = DS_POPPED;
+                    g_d.active++;
+                    vrt_count(c_dfresh_target, 1);
+                    d_post(me, t, op, ABT_THREAD_STATE_READY);
+                    me->st = DS_INPOOL;
+                    VRT_ABT(ABT_thread_create_to(g_d.pools[n->pool], dworker, n, ABT_THREAD_ATTR_NULL, &n->th));
+                    me->st = DS_RUNNING;
+                    d_check_expect(me);
+                }
+                break;
+            case DO_REVIVE_TO:
+                t = d_pick(DS_TERMINATED, me->id);
+                if (t < 0)
+                    break;
+                {
+                    /* the terminated unit must really be terminated (it may
+                     * still be finishing its exit path) */
+                    ABT_thread_state st;
+                    VRT_ABT(ABT_thread_get_state(g_d.w[t].th, &st));
+                    if (st != ABT_THREAD_STATE_TERMINATED)
+                        break;
+                    g_d.w[t].st = DS_POPPED;
+                    g_d.active++;
+                    vrt_count(c_dfresh_target, 1);
+                    d_post(me, t, op, ABT_THREAD_STATE_READY);
+                    me->st = DS_INPOOL;
+                    VRT_ABT(ABT_thread_revive_to(g_d.pools[g_d.w[t].pool], dworker, &g_d.w[t], &g_d.w[t].th));
+                    me->st = DS_RUNNING;
+                    d_check_expect(me);
+                }
+                break;
+            case DO_RESUME_YIELD_TO:
+            case DO_RESUME_SUSPEND_TO:
+            case DO_RESUME_EXIT_TO:
+                t = d_pick(DS_BLOCKED, me->id);
+                if (t < 0)
+                    break;
+                vrt_count(c_dstarted_target, 1);
+                g_d.w[t].st = DS_POPPED;
+                if (op == DO_RESUME_YIELD_TO) {
+                    d_post(me, t, op, ABT_THREAD_STATE_READY);
+                    me->st = DS_INPOOL;
+                    VRT_ABT(ABT_self_resume_yield_to(g_d.w[t].th));
+                } else if (op == DO_RESUME_SUSPEND_TO) {
+                    d_post(me, t, op, ABT_THREAD_STATE_BLOCKED);
+                    me->st = DS_BLOCKED;
+                    VRT_ABT(ABT_self_resume_suspend_to(g_d.w[t].th));
+                } else if (g_d.active > 2 && d_pick(DS_BLOCKED, me->id) < 0) {
+                    d_post(me, t, op, ABT_THREAD_STATE_TERMINATED);
+                    me->st = DS_TERMINATED;
+                    g_d.active--;
+                    ABT_self_resume_exit_to(g_d.w[t].th);
+                    vrt_violation("direct:ran-after-exit-to", "worker %d continued after resume_exit_to", me->id);
+                } else {
+                    d_post(me, t, DO_RESUME_YIELD_TO, ABT_THREAD_STATE_READY);
+                    me->st = DS_INPOOL;
+                    VRT_ABT(ABT_self_resume_yield_to(g_d.w[t].th));
+                }
+                me->st = DS_RUNNING;
+                d_check_expect(me);
+                break;
+            case DO_YIELD:
+                vrt_count(c_dops[op], 1);
+                me->st = DS_INPOOL;
+                ABT_thread_yield();
+                me->st = DS_RUNNING;
+                d_check_expect(me);
+                break;
+            case DO_SUSPEND:
+                /* only if somebody else can run and will resume us */
+                if (d_pick(DS_INPOOL, me->id) < 0)
+                    break;
+                vrt_count(c_dops[op], 1);
+                me->st = DS_BLOCKED;
+                VRT_ABT(ABT_self_suspend());
+                me->st = DS_RUNNING;
+                d_check_expect(me);
+                break;
+            case DO_RESUME:
+                t = d_pick(DS_BLOCKED, me->id);
+                if (t < 0)
+                    break;
+                vrt_count(c_dops[op], 1);
+                g_d.w[t].st = DS_INPOOL;
+                VRT_ABT(ABT_thread_resume(g_d.w[t].th));
+                break;
+            default:
+                break;
+        }
+    }
+    me->st = DS_TERMINATED;
+    g_d.active--;
+    if (g_d.active == 0)
+        __atomic_store_n(&g_d.finished, 1, __ATOMIC_SEQ_CST);
+}
+
+static void run_direct(vrt_rng *r, int idx, long ops)
+{
+    VRT_ABT(ABT_init(0, NULL));
+    memset(&g_d, 0, sizeof(g_d));
+    g_d.rng.s = vrt_next(r);
+    g_d.budget = ops;
+    static const int pk[] = { ABT_POOL_FIFO, ABT_POOL_FIFO_WAIT, ABT_POOL_RANDWS };
+    static const int sp[] = { ABT_SCHED_BASIC, ABT_SCHED_PRIO, ABT_SCHED_DEFAULT, ABT_SCHED_BASIC_WAIT, ABT_SCHED_RANDWS };
+    int kind = pk[vrt_range(r, 3)];
+    int sched = sp[vrt_range(r, 5)];
+    if (sched == ABT_SCHED_BASIC_WAIT)
+        kind = ABT_POOL_FIFO_WAIT;
+    g_d.npools = 1 + (int)vrt_range(r, 2);
+    for (int i = 0; i < g_d.npools; i++)
+        VRT_ABT(ABT_pool_create_basic((ABT_pool_kind)kind, ABT_POOL_ACCESS_MPMC, ABT_TRUE, &g_d.pools[i]));
+    VRT_ABT(ABT_pool_create_basic(ABT_POOL_FIFO, ABT_POOL_ACCESS_MPMC, ABT_FALSE, &g_d.staging));
+    int n0 = 2 + (int)vrt_range(r, 10);
+    /* all initial workers are queued before the stream exists, so the model
+     * (which is only touched by code running on that one stream) is complete
+     * when the first worker starts */
+    for (int i = 0; i < n0; i++) {
+        dw_t *n = &g_d.w[i];
+        n->id = i;
+        n->used = 1;
+        n->pool = (int)vrt_range(r, (uint64_t)g_d.npools);
+        n->st = DS_INPOOL;
+    }
+    g_d.nw = n0;
+    g_d.active = n0;
+    for (int i = 0; i < n0; i++)
+        VRT_ABT(ABT_thread_create(g_d.pools[g_d.w[i].pool], dworker, &g_d.w[i], ABT_THREAD_ATTR_NULL, &g_d.w[i].th));
+    ABT_xstream xs;
+    VRT_ABT(ABT_xstream_create_basic((ABT_sched_predef)sched, g_d.npools, g_d.pools, ABT_SCHED_CONFIG_NULL, &xs));
+    while (!__atomic_load_n(&g_d.finished, __ATOMIC_SEQ_CST) && vrt_num_violations() == 0)
+        vrt_sleep_us(50);
+    if (vrt_num_violations())
+        return;
+    VRT_ABT(ABT_xstream_join(xs));
+    for (int i = 0; i < g_d.nw; i++)
+        if (g_d.w[i].used) {
+            ABT_thread_state st;
+            VRT_ABT(ABT_thread_get_state(g_d.w[i].th, &st));
+            VRT_CHECK(st == ABT_THREAD_STATE_TERMINATED, "direct:not-terminated", "worker %d state %d at the end", i, (int)st);
+            VRT_ABT(ABT_thread_free(&g_d.w[i].th));
+        }
+    for (int i = 0; i < g_d.npools; i++) {
+        size_t tot = 1;
+        VRT_ABT(ABT_pool_get_total_size(g_d.pools[i], &tot));
+        VRT_CHECK(tot == 0, "direct:pool-total-size", "pool %d total size %zu at quiescence", i, tot);
+    }
+    VRT_ABT(ABT_xstream_free(&xs));
+    VRT_ABT(ABT_pool_free(&g_d.staging));
+    VRT_ABT(ABT_finalize());
+    if (idx < 2)
+        vrt_sample("direct scenario %d: one stream, %d pool(s) of kind %s, scheduler %s, %d initial workers, %ld random "
+                   "directed-switch operations (targets fresh or already started, same or other pool)", idx, g_d.npools,
+                   w_pool_kind_name(kind), w_sched_name(sched), n0, ops);
+    vrt_signature_add("p%d,%s,%s,n%d", g_d.npools, w_pool_kind_name(kind), w_sched_name(sched), n0);
+    vrt_count(c_dscen, 1);
+    vrt_count(c_cases, 1);
+}
+
 int main(int argc, char **argv)
 {
     vrt_init(argc, argv, "h_units");
@@ -1464,6 +1977,28 @@ int main(int argc, char **argv)
         int n = (int)vrt_arg_int("scenarios", 40);
         for (int i = 0; i < n && vrt_num_violations() == 0; i++)
             run_block_scenario(&r, i, (int)vrt_arg_int("max-es", 4));
+    } else if (!strcmp(mode, "susp")) {
+        c_suspends = vrt_counter("suspend_resume_round_trips");
+        c_susp_scen = vrt_counter("susp_scenarios");
+        c_resumed_by_ext = vrt_counter("resumed_by_external_thread");
+        c_resumed_by_ult = vrt_counter("resumed_by_ult_on_other_stream");
+        int n = (int)vrt_arg_int("scenarios", 20);
+        for (int i = 0; i < n && vrt_num_violations() == 0; i++)
+            run_susp(&r, i, (int)vrt_arg_int("max-es", 4), (int)vrt_arg_int("rounds", 300));
+    } else if (!strcmp(mode, "direct")) {
+        for (int i = 0; i < DO_NOPS; i++) {
+            char nm[64];
+            snprintf(nm, sizeof(nm), "op_%s", do_name[i]);
+            c_dops[i] = vrt_counter(nm);
+        }
+        c_dchains = vrt_counter("directed_switches");
+        c_dexpect = vrt_counter("expectations_checked");
+        c_dscen = vrt_counter("direct_scenarios");
+        c_dfresh_target = vrt_counter("targets_never_started");
+        c_dstarted_target = vrt_counter("targets_already_started");
+        int n = (int)vrt_arg_int("scenarios", 20);
+        for (int i = 0; i < n && vrt_num_violations() == 0; i++)
+            run_direct(&r, i, vrt_arg_int("ops", 3000));
     } else {
         vrt_fatal("unknown mode %s", mode);
     }
